@@ -47,7 +47,7 @@ func c17List(tier string) []c17Case {
 	for _, v := range []string{"stuck-writer", "failing-reader", "failing-writer", "dial-error", "slow-dial"} {
 		add("isolation", v, 4)
 	}
-	for _, v := range []string{"reattach-before-old-fails", "reattach-after-old-fails", "reattach-before-old-write-fails", "reattach-from-disconnect-callback"} {
+	for _, v := range []string{"reattach-before-old-fails", "reattach-after-old-fails", "reattach-before-old-write-fails", "reattach-from-disconnect-callback", "reattach-old-stays-open"} {
 		add("reattach", v, 4)
 	}
 	for _, v := range []string{"serve-loop-held-in-intercepter", "serve-loop-held-in-disconnect-callback"} {
@@ -113,7 +113,8 @@ func c17Run(tier string, seed int64, idx int) *core.Result {
 		}
 		return nil, fmt.Errorf("cannot dial %q", id)
 	}, func(hd *goatorepo.RequestHeader) error {
-		if c.Variant == "serve-loop-held-in-intercepter" && hd.Destination == "hold" {
+		// (an ordinary intercepter: it looks at the header it is given without asking whether there is one)
+		if hd.Destination == "hold" && c.Variant == "serve-loop-held-in-intercepter" {
 			gates.Wait("serve-loop")
 		}
 		return nil
@@ -384,6 +385,19 @@ func c17Run(tier string, seed int64, idx int) *core.Result {
 				quiet(tier)
 			}
 			next()
+		case "reattach-old-stays-open":
+			// the peer attaches a second connection under its name while the first one is still
+			// open (and stays open): from then on everything for the name goes to the newer one
+			if next() {
+				guarded(tier, res, "Proxy.AddClient", func() { px.AddClient("a1", newer.link.B) })
+				quiet(tier)
+			}
+			if next() {
+				before := count(a1)
+				if sendChecked(a0, newer, 600, 608, "to the re-attached peer while its old connection is still open") && count(a1) != before {
+					res.Violate("envelope-delivered-to-superseded-connection", "after a1 attached a newer connection, %d envelopes addressed to a1 were written to its old connection", count(a1)-before)
+				}
+			}
 		case "reattach-before-old-fails", "reattach-before-old-write-fails":
 			if next() {
 				guarded(tier, res, "Proxy.AddClient", func() { px.AddClient("a1", newer.link.B) })
@@ -430,7 +444,7 @@ func c17Run(tier string, seed int64, idx int) *core.Result {
 				}
 			}
 			mu.Unlock()
-			if n < 1 {
+			if n < 1 && c.Variant != "reattach-old-stays-open" {
 				res.Violate("failed-connection-not-reported/"+c.Variant, "old 'a1' connection failed but the disconnect callback was not invoked")
 			}
 		}
